@@ -1,46 +1,109 @@
-//! C03 — bounded attempt: the real Dlmalloc over one region granted (or refused) by the stub kernel.
+//! C03 (arithmetic part) — full-domain, loop-free Kani proofs of dlmalloc's pure size-class helpers on
+//! the compiled crate (reached through the `verif-hooks` re-exports), and conformance of the
+//! constants the Verus unit restates.  The heap-level property is not decided (DESIGN §4.C03, §9.5).
 #![allow(unused_imports, clippy::all)]
-use sc::kernel;
-use tiny_std::allocator::dlmalloc::Dlmalloc;
+use tiny_std::allocator::dlmalloc::verif_hooks as h;
+
+/// documented lower bound of tree bin i (dlmalloc: minsize_for_tree_index)
+pub fn min_size_for_tree_index(i: u32) -> usize {
+    let i = i as usize;
+    (1usize << ((i >> 1) + 8)) | ((i & 1) << ((i >> 1) + 7))
+}
 
 #[cfg(kani)]
 pub mod proofs {
     use super::*;
 
-    fn in_arena(p: *mut u8, size: usize) -> bool {
-        let base = unsafe { kernel::BIG_ARENA.as_ptr() as usize };
-        let a = p as usize;
-        a >= base && a + size <= base + kernel::BIG_ARENA_WORDS * 8
+    #[kani::proof]
+    pub fn c03_constants_match_the_verus_unit() {
+        assert!(h::MALLOC_ALIGNMENT == 16 && h::CHUNK_OVERHEAD == 8 && h::MIN_CHUNK_SIZE == 32 && h::MIN_REQUEST == 23, "restated_constants");
+        assert!(h::NSMALLBINS == 32 && h::NTREEBINS == 32 && h::SMALLBIN_SHIFT == 3 && h::TREEBIN_SHIFT == 8 && h::PAGE_SIZE == 4096, "restated_bin_constants");
+        // every request the allocator accepts can be padded without overflow
+        assert!(h::MAX_REQUEST <= usize::MAX - 64, "max_request_leaves_headroom");
     }
 
-    /// two allocations: each non-null result is aligned, inside memory the system granted, and the two
-    /// blocks do not overlap; a refused mmap gives null
     #[kani::proof]
-    #[kani::unwind(40)]
-    pub fn c03_two_allocations_disjoint() {
-        kernel::reset();
-        kernel::set_mode(kernel::MODE_BIG_ARENA);
-        kernel::set_call_budget(6);
-        let mut a = Dlmalloc::new();
-        let s1: usize = kani::any();
+    pub fn c03_align_up() {
+        let a: usize = kani::any();
+        let k: u32 = kani::any();
+        kani::assume(k < 40);
+        let al = 1usize << k;
+        kani::assume(a <= usize::MAX - al);
+        let r = h::align_up(a, al);
+        assert!(r >= a && r - a < al && r & (al - 1) == 0, "align_up_is_the_next_multiple");
+    }
+
+    #[kani::proof]
+    pub fn c03_request2size_and_padding() {
+        let req: usize = kani::any();
+        kani::assume(req < h::MAX_REQUEST);
+        let r = h::request2size(req);
+        assert!(r >= req + h::CHUNK_OVERHEAD, "chunk_holds_request_and_header");
+        assert!(r >= h::MIN_CHUNK_SIZE && r & (h::MALLOC_ALIGNMENT - 1) == 0, "legal_aligned_chunk_size");
+        assert!(r - req < h::MIN_CHUNK_SIZE + h::MALLOC_ALIGNMENT, "bounded_waste");
+        let p = h::pad_request(req);
+        assert!(p >= req + h::CHUNK_OVERHEAD && p & 15 == 0 && p - req < h::CHUNK_OVERHEAD + h::MALLOC_ALIGNMENT, "pad_request");
+        // monotone: a larger request never gets a smaller chunk
+        let req2: usize = kani::any();
+        kani::assume(req2 < h::MAX_REQUEST && req <= req2);
+        assert!(h::request2size(req) <= h::request2size(req2), "request2size_monotone");
+    }
+
+    #[kani::proof]
+    pub fn c03_small_bins() {
+        let s: usize = kani::any();
+        kani::assume(s < (1usize << 35));
+        let i = h::small_index(s);
+        assert!(i as usize == s >> 3, "small_index");
+        assert!(h::is_small(s) == (s < 256), "is_small_iff_below_256");
+        if s & 7 == 0 && s < 256 {
+            assert!((i as usize) < h::NSMALLBINS && h::small_index2size(i) == s, "aligned_small_size_round_trip");
+        }
+        let a: usize = kani::any();
+        assert!(h::is_aligned(a) == (a % 16 == 0), "is_aligned");
+        kani::assume(a <= usize::MAX - 64);
+        let off = h::align_offset_usize(a);
+        assert!(off < 16 && (a + off) % 16 == 0, "align_offset");
+        let m = h::mmap_align(a.min(usize::MAX - 8192));
+        assert!(m % 4096 == 0, "mmap_align");
+    }
+
+    #[kani::proof]
+    pub fn c03_bit_helpers() {
+        let x: u32 = kani::any();
+        kani::assume(x != 0);
+        let lb = h::least_bit(x); // (`!x + 1` must not overflow for x != 0)
+        assert!(lb != 0 && lb & (lb - 1) == 0 && x & lb == lb && x & (lb - 1) == 0, "least_bit_is_the_lowest_set_bit");
+        assert!(lb == 1u32 << x.trailing_zeros(), "least_bit_equals_trailing_zeros");
+        // left_bits of a single bit: all bits strictly to its left
+        let k: u32 = kani::any();
+        kani::assume(k < 32);
+        let b = 1u32 << k;
+        let l = h::left_bits(b);
+        let expect = if k == 31 { 0 } else { !((b << 1) - 1) };
+        assert!(l == expect, "left_bits_is_the_mask_left_of_the_bit");
+    }
+
+    #[kani::proof]
+    pub fn c03_tree_index() {
+        let s: usize = kani::any();
+        let i = h::compute_tree_index(s);
+        assert!(i < 32, "tree_index_in_range");
+        if s < 256 {
+            assert!(i == 0, "small_sizes_map_to_bin_0");
+        } else if i < 31 {
+            assert!(min_size_for_tree_index(i) <= s && s < min_size_for_tree_index(i + 1), "size_is_inside_its_bins_bracket");
+        } else {
+            assert!(s >= min_size_for_tree_index(31), "last_bin_takes_everything_larger");
+        }
         let s2: usize = kani::any();
-        kani::assume(s1 >= 1 && s1 <= 40 && s2 >= 1 && s2 <= 40);
-        unsafe {
-            let p1 = a.malloc(s1, 8);
-            if !p1.is_null() {
-                assert!(p1 as usize % 16 == 0, "aligned");
-                assert!(in_arena(p1, s1), "inside_granted_memory");
-                *p1 = 0xAB;
-                let p2 = a.malloc(s2, 8);
-                if !p2.is_null() {
-                    assert!(in_arena(p2, s2), "inside_granted_memory_2");
-                    let (x1, x2) = (p1 as usize, p2 as usize);
-                    assert!(x1 + s1 <= x2 || x2 + s2 <= x1, "live_blocks_do_not_overlap");
-                    assert!(*p1 == 0xAB, "first_block_intact");
-                }
-            } else {
-                assert!(kernel::count_nr(sc::nr::MMAP) >= 1, "null_only_when_the_system_refused");
-            }
+        kani::assume(s <= s2);
+        assert!(i <= h::compute_tree_index(s2), "tree_index_monotone");
+        // the shift used to walk a tree keeps the bit below the bin's size class inside a usize
+        let sh = h::leftshift_for_tree_index(i);
+        assert!(sh < 64, "leftshift_in_range");
+        if i < 31 {
+            assert!(sh as usize == 63 - ((i as usize >> 1) + 8 - 2), "leftshift_value");
         }
     }
 }
